@@ -84,9 +84,8 @@ def check_case(ctx, case):
 def check_characterize(ctx, case):
     base = asm.cls_by_name(case["base"])
     wd = case["word"]
-    from moclo._utils import isabstract
     cands = list(base.__subclasses__())
-    if not isabstract(base):
+    if not impl.isabstract(base):
         cands.append(base)
     rec = impl.CircularRecord(impl.Seq(wd), id="c")
     accepting = [c for c in cands if T.evaluate(c, wd)[0] == "valid"]
